@@ -50,6 +50,8 @@ class Contract:
         self.ghost_after = list(kw.get("ghost_after", []))
         self.note = kw.get("note", "")
         self.env = dict(kw.get("env", {}))
+        self.nla = kw.get("nla", "native")                # "uf": products/quotients of two symbolic reals are uninterpreted (sound abstraction)
+        self.axioms = list(kw.get("axioms", []))          # opt-in axiom groups, e.g. "rpow-arith"
         self.N_light = kw.get("N_light", False)          # units for N other than the first only keep node-constructor obligations
         self.rng = kw.get("rng", True)                   # False: any numpy random call inside is an obligation failure              # extra class variables, e.g. {"$P": "BinaryPartition"}
 
@@ -91,6 +93,12 @@ class Registry:
         l = Loop(qname, ordinal, **kw)
         self.loops[(qname, ordinal)] = l
         return l
+
+    def cut(self, qname, after, clauses, props=""):
+        """intermediate assertion: after the statement tagged `after` (e.g. "if#0", "call:expand#0") every clause is
+        proved (obligation kind `cut`) and then kept as a lemma for the rest of the path"""
+        self.cuts = getattr(self, "cuts", {})
+        self.cuts.setdefault((qname, after), []).extend(_clauses(clauses, set(props.split())))
 
     def pred(self, name, params, text, cls=None):
         self.preds.setdefault(name, []).append(Pred(name, params, text, cls))
